@@ -70,7 +70,7 @@ def reference(parts, name):
         return one(name)
     out = []
     for n in name:
-        r = one(n)
+        r = reference(parts, n)        # lists may be nested and may repeat a name
         if r[0] == 'e':
             return r
         out += r[1]
@@ -113,7 +113,7 @@ def search(tier='quick'):
                         except Exception as e:  # noqa
                             _fail(fails, sc, 'construction', type(e).__name__, 'no exception (no duplicates)')
                             continue
-                        reqs = list(dsn) + list(als) + ['nope'] + ([list(dsn)] if dsn else []) + ([tuple(reversed(dsn))] if len(dsn) > 1 else []) + ([[als[0], dsn[0]]] if als and dsn else [])
+                        reqs = list(dsn) + list(als) + ['nope'] + ([list(dsn)] if dsn else []) + ([tuple(reversed(dsn))] if len(dsn) > 1 else []) + ([[dsn[0], dsn[0]], [dsn[-1], dsn[0], dsn[-1]], [[dsn[0]], dsn[0]]] if dsn else []) + ([[als[0], dsn[0]]] if als and dsn else [])
                         first = {}
                         for r in reqs + reqs:
                             ob, ds = observe(db, r)
@@ -154,7 +154,7 @@ def search(tier='quick'):
                         if tier != 'quick' or cases % 5 == 0:
                             paths = []
                             for j, p in enumerate(pristine):
-                                path = os.path.join(tmp, 'p%d_%d.json' % (cases, j))
+                                path = os.path.join(tmp, 'part%d.json' % j)      # the SAME file names are rewritten for every description
                                 with open(path, 'w') as fd:
                                     json.dump(p, fd)
                                 paths.append(path)
@@ -166,8 +166,6 @@ def search(tier='quick'):
                                     ob, _ = observe(d, r)
                                     if ob != ex:
                                         _fail(fails, sc, '%s.get_dataset(%r)' % (label, r), ob, ex)
-                            for path in paths:
-                                os.remove(path)
         # duplicates across merged descriptions are rejected
         dup_cases = [
             ('duplicate dataset name', [{'datasets': {'a': {'x': {}}}}, {'datasets': {'a': {'y': {}}}}]),
